@@ -402,6 +402,8 @@ class LiveMedia(MediaRequestBase):
             'LiveMedia.get: %s.%s stream=%s num=%s time=%s',
             filename, ext, stream, segment_num, segment_time)
         representation = current_media_file.representation
+        if representation is None:
+            return flask.make_response('Media file needs indexing', 404)
         try:
             options = self.calculate_options(mode, flask.request.args, current_stream)
         except ValueError as err:
